@@ -1,14 +1,208 @@
 import Driver.Proto
-/-! Driver sub-command `activation` (stub – filled in by its cluster). -/
+import PtVerif.Model.Activation
+import PtVerif.Generated.ActivationDat
+/-! Driver sub-command `activation`: the activation model (C14, C15) at `Float`.
+
+Requests (floats as 16 hex digits):
+* `consts`                                    → `ok ln2 uCi nrows`
+* `expm1 x`                                   → `ok expm1(x)`
+* `row i`                                     → `ok z a fast reaction ab xs res th thp xsp resp` (generated table)
+* `line <hex of the utf-8 bytes>`             → `skip` | `bad` | `ok …` (string-level reader of one file line)
+* `iso z a mass fluence cd fast T n t1 … tn`  → `ok (k amp v1 … vn)*` | `err <Exception>`   (`activity()`)
+* `calc mass fluence cd fast T n t1 … tn p (frac m (z a share|-)^m)^p` → `ok` | `err …`  (`calculate_activation`; tally kept)
+* `removal` / `table`                         → `ok (k amp v…)*` of the kept tally
+* `decay target`                              → `ok t` | `err <Exception>`  (`decay_time` on the kept tally)
+* `decaydata target n (ia thalf)^n`           → same on explicit data (products given directly)
+
+`amp` is a conditioning estimate of the row's formula at that input (≥ 1; how much a one-ulp
+change of an intermediate can move the result).  It is used by the harness only to widen the
+comparison tolerance where the code subtracts nearly equal numbers. -/
 namespace Driver.ActivationCmd
-open Driver
+open Driver PtNum PtModel.Activation
+
+abbrev F := Float
+
+def consts : Consts F := PtGen.ActivationDat.consts
+
+def tableArr : Array DRow := PtGen.ActivationDat.table.toArray
+
+def rowsOf (z a : Nat) : List (Nat × Row F) := rowsOfIsotope PtGen.ActivationDat.table z a
+
+def thalfOf (k : Nat) : F :=
+  match tableArr[k]? with
+  | some r => r.thalf.toNum
+  | none => 0
 
 structure St where
-  dummy : Unit := ()
+  tally : Tally F := {}
+  env : Env F := ⟨0, 0, 0⟩
+  exposure : F := 0
 
 def init : St := {}
 
+def floats (ts : Toks) : Option (List F) := ts.mapM readF
+
+def showFs (xs : List F) : String := " ".intercalate (xs.map showF)
+
+def showReaction : Reaction → String
+  | .act => "act" | .b => "b" | .twoN => "2n"
+
+def showRow (r : DRow) : String :=
+  let x : Row F := r.toRow
+  s!"ok {r.z} {r.a} {if r.fast then "y" else "n"} {showReaction r.reaction} " ++
+    showFs [x.abundance, x.thermalXS, x.resonance, x.thalf, x.thalfParent, x.thermalXSParent, x.resonanceParent]
+
+def ratio (x y : F) : F := if y == 0 then 1e300 else Float.abs x / Float.abs y
+def fmax (x y : F) : F := if x < y then y else x
+
+/-- conditioning estimate of one row's formula (Float only; not part of the model) -/
+def amp (r : Row F) (env : Env F) (T : F) : F :=
+  let xs := initialXS env r
+  let flux := fluxOf env r
+  let lam := consts.ln2 / r.thalf
+  match r.reaction with
+  | .b =>
+    let plam := consts.ln2 / r.thalfParent
+    let t1 := lam * ActNum.expm1 (-plam * T)
+    let t2 := plam * ActNum.expm1 (-lam * T)
+    1 + ratio (Float.abs t1 + Float.abs t2) (t1 - t2) + ratio (fmax plam lam) (plam - lam)
+  | .twoN =>
+    let plam := consts.ln2 / r.thalfParent
+    let exs := effectiveXS env r
+    let l2 := flux * xs * 1e-24 * 3.6e3
+    let pa := env.fluence * 1e-24 * 3.6e3 * exs + plam
+    let t1 := Float.exp (-l2 * T) / twoNDen1 l2 pa lam
+    let t2 := Float.exp (-pa * T) / twoNDen2 l2 pa lam
+    let t3 := Float.exp (-lam * T) / twoNDen3 l2 pa lam
+    1 + ratio (Float.abs t1 + Float.abs t2 + Float.abs t3) (t1 + t2 + t3)
+      + ratio pa (pa - plam) + ratio (fmax pa l2) (pa - l2) + ratio (fmax lam l2) (lam - l2)
+      + ratio (fmax lam pa) (lam - pa)
+  | .act =>
+    let exs := effectiveXS env r
+    let U := actU flux xs T
+    let V := actV lam env.fluence exs T
+    let x := Float.abs (V - U)
+    1 + fmax U V * (if x < 1 then 1 else 1 / x)
+
+def hexVal2 (a b : Char) : Option Char := do
+  let x ← hexVal a
+  let y ← hexVal b
+  pure (Char.ofNat (x * 16 + y))
+
+def unhex : List Char → Option (List Char)
+  | [] => some []
+  | a :: b :: r => do
+    let c ← hexVal2 a b
+    let rest ← unhex r
+    pure (c :: rest)
+  | _ => none
+
+def showErr (e : Err) : String := "err " ++ e.name
+
+def readParts : Nat → Toks → Option (List (Part F) × Toks)
+  | 0, ts => some ([], ts)
+  | p + 1, frac :: m :: ts => do
+    let frac ← readF frac
+    let m ← natTok m
+    let rec isos : Nat → Toks → Option (List (IsoPart F) × Toks)
+      | 0, ts => some ([], ts)
+      | k + 1, z :: a :: sh :: ts => do
+        let z ← natTok z
+        let a ← natTok a
+        let share ← if sh == "-" then some none else (readF sh).map some
+        let (rest, ts') ← isos k ts
+        pure (⟨z, a, share⟩ :: rest, ts')
+      | _, _ => none
+    let (is, ts1) ← isos m ts
+    let (rest, ts2) ← readParts p ts1
+    pure (⟨frac, is⟩ :: rest, ts2)
+  | _, _ => none
+
+def readPairs : Nat → Toks → Option (List (F × F))
+  | 0, [] => some []
+  | n + 1, a :: b :: ts => do
+    let a ← readF a
+    let b ← readF b
+    let rest ← readPairs n ts
+    pure ((a, b) :: rest)
+  | _, _ => none
+
 def handle (st : St) : Toks → IO St
+  | ["consts"] => do
+    reply s!"ok {showF consts.ln2} {showF consts.uCi} {tableArr.size}"; pure st
+  | ["expm1", x] => do
+    match readF x with
+    | some x => reply ("ok " ++ showF (ActNum.expm1 x))
+    | none => reply "ERR bad-op"
+    pure st
+  | ["row", i] => do
+    match natTok i >>= (tableArr[·]?) with
+    | some r => reply (showRow r)
+    | none => reply "ERR no-row"
+    pure st
+  | ["line", h] => do
+    match unhex h.toList with
+    | some cs =>
+      match parseLine cs with
+      | .skipped => reply "skip"
+      | .unreadable => reply "bad"
+      | .row r => reply (showRow r)
+    | none => reply "ERR bad-hex"
+    pure st
+  | ["line"] => do reply "skip"; pure st
+  | "iso" :: z :: a :: mass :: fl :: cd :: fr :: t :: n :: rests => do
+    match natTok z, natTok a, floats [mass, fl, cd, fr, t], natTok n, floats rests with
+    | some z, some a, some [mass, fl, cd, fr, t], some n, some rests =>
+      if rests.length != n then reply "ERR bad-count" else
+      let env : Env F := ⟨fl, cd, fr⟩
+      let rows := rowsOf z a
+      match activity consts rows mass env t rests with
+      | .error e => reply (showErr e)
+      | .ok out =>
+        let body := out.map fun (k, vs) =>
+          let r : Row F := (tableArr[k]!).toRow
+          s!"{k} {showF (amp r env t)} {showFs vs}"
+        reply (" ".intercalate ("ok" :: body))
+    | _, _, _, _, _ => reply "ERR bad-op"
+    pure st
+  | "calc" :: mass :: fl :: cd :: fr :: t :: n :: more => do
+    match floats [mass, fl, cd, fr, t], natTok n with
+    | some [mass, fl, cd, fr, t], some n =>
+      match floats (more.take n), more.drop n with
+      | some rests, p :: ptoks =>
+        match natTok p >>= (readParts · ptoks) with
+        | some (parts, []) =>
+          match calcActivation consts rowsOf mass ⟨fl, cd, fr⟩ t rests parts with
+          | .error e => reply (showErr e); pure st
+          | .ok tally => reply "ok"; pure { st with tally := tally, env := ⟨fl, cd, fr⟩, exposure := t }
+        | _ => reply "ERR bad-parts"; pure st
+      | _, _ => reply "ERR bad-op"; pure st
+    | _, _ => reply "ERR bad-op"; pure st
+  | ["removal"] => do
+    reply (" ".intercalate ("ok" :: st.tally.removal.map fun (k, v) =>
+      s!"{k} {showF (amp (tableArr[k]!).toRow st.env st.exposure)} {showF v}")); pure st
+  | ["table"] => do
+    reply (" ".intercalate ("ok" :: st.tally.table.map fun (k, vs) =>
+      s!"{k} {showF (amp (tableArr[k]!).toRow st.env st.exposure)} {showFs vs}")); pure st
+  | ["decay", target] => do
+    match readF target with
+    | some target =>
+      match decayTime consts thalfOf st.tally.removal target with
+      | .error e => reply (showErr e)
+      | .ok t => reply ("ok " ++ showF t)
+    | none => reply "ERR bad-op"
+    pure st
+  | "decaydata" :: target :: n :: more => do
+    match readF target, natTok n >>= (readPairs · more) with
+    | some target, some pairs =>
+      -- products given directly as (activity at removal, half-life): same path as `decay`
+      let removal := pairs.zipIdx.map fun ((ia, _), i) => (i, ia)
+      let th := fun k => match pairs[k]? with | some (_, th) => th | none => 0
+      match decayTime consts th removal target with
+      | .error e => reply (showErr e)
+      | .ok t => reply ("ok " ++ showF t)
+    | _, _ => reply "ERR bad-op"
+    pure st
   | _ => do reply "ERR bad-op"; pure st
 
 end Driver.ActivationCmd
